@@ -766,7 +766,9 @@ pub fn collect_fields(nodes: &[Node], scope: &mut Vec<String>, dynamic: bool, al
                 for a in values {
                     let mut f = BTreeSet::new();
                     attrval_fields(&a.val, scope, &mut f);
-                    if dynamic {
+                    // (slot values have updaters of their own; the other attributes of a <slot>
+                    // are updated with the slot as a whole)
+                    if dynamic || !matches!(a.name.as_str(), "sv" | "si" | "sl") {
                         unreachable.extend(f.iter().cloned());
                     }
                     all.extend(f);
